@@ -20,5 +20,11 @@ if [ -f harness/Cargo.toml ]; then
     cargo build --release --offline -q --manifest-path harness/Cargo.toml || { echo "setup: harness build failed"; exit 1; }
   RUSTFLAGS="--cfg rusty_paseto_verif -C target-cpu=native" CARGO_TARGET_DIR=target/harness \
     cargo build --profile checked --offline -q --manifest-path harness/Cargo.toml || { echo "setup: harness (checked) build failed"; exit 1; }
+  # the reduced feature configurations of the harness used by C01-C09 (quick: each protocol alone); one target
+  # directory each, so that later builds only recompile what /repo's working tree changed
+  for f in v1_local v2_local v3_local v4_local v1_public v2_public v3_public v4_public; do
+    RUSTFLAGS="--cfg rusty_paseto_verif -C target-cpu=native" CARGO_TARGET_DIR=target/cfg/$f \
+      cargo build --profile cfgs --offline -q --manifest-path harness/Cargo.toml --no-default-features --features $f || { echo "setup: harness ($f only) build failed"; exit 1; }
+  done
 fi
 echo "setup ok"
